@@ -226,10 +226,12 @@ OutAcks(m, f, l) ==
 OpenLocal(m) ==
     {s \in DOMAIN m.st :
         /\ LocallyInit(m, s)
-        /\ m.st[s].o \in {"open", "es"}
-        /\ (m.role = "c" \/ m.st[s].fin \/ m.st[s].o = "es")   \* pushed streams count once active
         /\ m.st[s].i # "rst"
-        /\ ~(m.st[s].o = "es" /\ m.st[s].i = "es")}
+        /\ IF m.role = "c"
+           THEN m.st[s].o \in {"open", "es"} /\ ~(m.st[s].o = "es" /\ m.st[s].i = "es")
+           \* a pushed stream counts from its response HEADERS (reserved streams do not count, RFC 9113 5.1.2) until its
+           \* END_STREAM: the client never sends on it (half-closed (remote) from the start), so that closes it
+           ELSE m.st[s].o = "open" /\ m.st[s].fin}
 
 OutConcurrency(m, f, l) ==
     LET s == f.sid
